@@ -1691,8 +1691,23 @@ class Inliner:
         ys = [n for n in _walk_same_function(hfn) if isinstance(n, (ast.Yield, ast.YieldFrom))]
         if len(ys) != 1 or not isinstance(ys[0], ast.Yield) or ys[0].value is None or any(r.value is not None for r in _returns_in(hfn)):
             return None
-        if any(isinstance(n, ast.Break) for b in s.body for n in _walk_loop_body(b)):
-            return None  # leaving the consumer's loop would have to leave all of the helper's loops
+        has_break = any(isinstance(n, ast.Break) for b in s.body for n in _walk_loop_body(b))
+        if has_break:
+            # leaving the consumer's loop has to leave the helper altogether: fine when the helper ends with the one loop that
+            # yields (directly, not from an inner loop or a try/with) and nothing comes after that loop
+            lastst = hfn.body[-1] if hfn.body else None
+            if not (isinstance(lastst, (ast.For, ast.While)) and not lastst.orelse and not any(isinstance(n, ast.Yield) for st_ in hfn.body[:-1] for n in _walk_same_function(st_))):
+                return None
+
+            def direct(stmts):
+                for st_ in stmts:
+                    if isinstance(st_, ast.Expr) and st_.value is ys[0]:
+                        return True
+                    if isinstance(st_, ast.If) and (direct(st_.body) or direct(st_.orelse)):
+                        return True
+                return False
+            if not direct(lastst.body):
+                return None
         has_continue = any(isinstance(n, ast.Continue) for b in s.body for n in _walk_loop_body(b))
         body, exprmap, pre, ok = self._bind(s.iter, hfn, recv, q)
         if not ok:
@@ -2910,6 +2925,61 @@ def _walk_loop_body(node):
         yield from _walk_loop_body(c)
 
 
+_STR_METHODS = frozenset("replace strip lstrip rstrip lower upper join format encode decode split rsplit splitlines title capitalize expandtabs ljust rjust zfill".split())
+_NEVER_NONE_CALLS = frozenset("str repr int float len list tuple dict set frozenset bool sorted bytes abs min max sum".split())
+
+
+def _never_none(e, scope, depth=3):
+    """is the value of e certainly not None?  (new objects, strings built by operators / string methods / path functions; a plain
+    name when every binding of it in `scope` is such a value)"""
+    if isinstance(e, ast.Constant):
+        return e.value is not None
+    if isinstance(e, (ast.JoinedStr, ast.Tuple, ast.List, ast.Dict, ast.Set, ast.Compare, ast.ListComp, ast.SetComp, ast.DictComp, ast.GeneratorExp, ast.Lambda)):
+        return True
+    if isinstance(e, ast.BinOp):
+        return True
+    if isinstance(e, ast.IfExp):
+        return _never_none(e.body, scope, depth) and _never_none(e.orelse, scope, depth)
+    if isinstance(e, ast.Call):
+        f = e.func
+        if isinstance(f, ast.Name):
+            return f.id in _NEVER_NONE_CALLS
+        if isinstance(f, ast.Attribute):
+            d_ = ast.unparse(f)
+            if d_.startswith(("posixpath.", "os.path.", "ntpath.")) and f.attr in ("join", "normpath", "abspath", "dirname", "basename", "realpath", "normcase", "relpath"):
+                return True
+            if d_ in ("re.sub", "re.escape"):
+                return True
+            return f.attr in _STR_METHODS
+        return False
+    if isinstance(e, ast.Name) and depth:
+        binds = [n for s_ in scope for n in ast.walk(s_) if isinstance(n, (ast.Assign, ast.AugAssign, ast.For, ast.With, ast.NamedExpr, ast.ExceptHandler, ast.comprehension))]
+        vals = []
+        for n in binds:
+            if isinstance(n, ast.Assign):
+                for t in n.targets:
+                    if isinstance(t, ast.Name) and t.id == e.id:
+                        vals.append(n.value)
+                    elif any(isinstance(x, ast.Name) and x.id == e.id for x in ast.walk(t)):
+                        return False
+            elif isinstance(n, ast.AugAssign):
+                if isinstance(n.target, ast.Name) and n.target.id == e.id:
+                    vals.append(ast.BinOp(left=n.target, op=n.op, right=n.value))
+            elif isinstance(n, (ast.For, ast.comprehension)):
+                if any(isinstance(x, ast.Name) and x.id == e.id for x in ast.walk(n.target)):
+                    return False
+            elif isinstance(n, ast.With):
+                if any(it.optional_vars is not None and any(isinstance(x, ast.Name) and x.id == e.id for x in ast.walk(it.optional_vars)) for it in n.items):
+                    return False
+            elif isinstance(n, ast.NamedExpr):
+                if n.target.id == e.id:
+                    return False
+            elif isinstance(n, ast.ExceptHandler) and n.name == e.id:
+                return False
+        return bool(vals) and all(_never_none(v_, scope, depth - 1) for v_ in vals)
+    return False
+
+
 def _sentinel_search(stmts):
     """v = None; for ...: if c: v = X; break      if v is not None: <leave, using v>
        ->  for ...: if c: <leave, using X>"""
@@ -2943,6 +3013,9 @@ def _sentinel_search(stmts):
                     elif any(isinstance(x, ast.Name) and x.id == v for x in ast.walk(s)):
                         bad = True
             find(lp.body)
+            # the value found must not itself be the 'nothing found' marker
+            if any(not _never_none(lst_[k_].value, [lp]) for lst_, k_ in sets):
+                bad = True
             later = any(isinstance(x, ast.Name) and x.id == v for s in out[i + 3:] for x in ast.walk(s))
             # the mirrored spelling: `if v is None: <leave>` and the use of v is everything that follows (which leaves too)
             is_none_test = isinstance(t, ast.Compare) and len(t.ops) == 1 and isinstance(t.ops[0], ast.Is) and isinstance(t.left, ast.Name) and t.left.id == v and isinstance(t.comparators[0], ast.Constant) and t.comparators[0].value is None
